@@ -18,6 +18,8 @@ struct FwConfig {
     u32 tstart[2] = {0, 0};
     bool bt_enable = false;
     int bt_words = 0;
+    bool bt1_enable = false; // second audio port: no audio callback in the facade, but flags and IRQ 0xC
+    int bt1_words = 0;
     int busy = 0;
     int main_kind = 0; // 0: idle (brr -1)  1: busy loop (inc a0; brr -2)  2: eint then idle
     u16 hact[4] = {0, 0, 0, 0};
@@ -44,6 +46,8 @@ inline void fw_from_plan(const Plan& p, FwConfig& c) {
     }
     c.bt_enable = p.knob("bt_en", 0) != 0;
     c.bt_words = (int)p.knob("bt_words", 0);
+    c.bt1_enable = p.knob("bt1_en", 0) != 0;
+    c.bt1_words = (int)p.knob("bt1_words", 0);
     c.busy = (int)p.knob("busy", 0);
     c.main_kind = (int)p.knob("main", 0);
     for (int i = 0; i < 4; ++i) {
@@ -67,13 +71,14 @@ inline void fw_build(FwConfig& c, Asm& a) {
         if (act & HA_RESTART_T1)
             a.store_imm(MMIO + 0x30, (u16)(c.tcfg[1] | 0x400));
         if (act & HA_AUDIO) {
-            a.store_imm(MMIO + 0x2C6, (u16)(0x1000 + h * 0x100 + (par & 0xFF)));
-            a.store_imm(MMIO + 0x2C6, (u16)(0x2000 + h * 0x100 + (par & 0xFF)));
+            u16 port = (u16)(MMIO + 0x2C6 + ((par >> 9) & 1) * 0x80); // either audio port
+            a.store_imm(port, (u16)(0x1000 + h * 0x100 + (par & 0xFF)));
+            a.store_imm(port, (u16)(0x2000 + h * 0x100 + (par & 0xFF)));
         }
         if (act & HA_REPLY)
             a.store_imm((u16)(MMIO + 0x0C0 + 4 * (par % 3)), (u16)(0xA000 + h));
         if (act & HA_ACK)
-            a.store_imm(MMIO + 0x202, (u16)(0x4E00)); // acknowledge irq 9,10,11,14
+            a.store_imm(MMIO + 0x202, (u16)(0x5E00)); // acknowledge irq 9,10,11,12,14
         if (act & HA_TRIGGER)
             a.store_imm(MMIO + 0x204, (u16)(1u << (9 + (par >> 8) % 3)));
         if (act & HA_IDLE_INSIDE) {
@@ -119,6 +124,9 @@ inline void fw_host_setup(Box& b, const FwConfig& c) {
     for (int i = 0; i < c.bt_words; ++i)
         t.MMIOWrite(0x2C6, (u16)(0x100 + i));
     t.MMIOWrite(0x2BE, c.bt_enable ? 1 : 0);
+    for (int i = 0; i < c.bt1_words; ++i)
+        t.MMIOWrite(0x346, (u16)(0x300 + i));
+    t.MMIOWrite(0x33E, c.bt1_enable ? 1 : 0);
 }
 
 } // namespace sim
